@@ -10,6 +10,7 @@
 import Umya.Thm.C01
 import Umya.Thm.C12
 import Umya.Lemmas.XmlEsc
+import Umya.Lemmas.TablesGen
 namespace Umya.Thm.C04
 open Umya.CellXml Umya.Num Umya.XmlEsc
 
@@ -84,5 +85,13 @@ theorem C04_edit_local (F : NumFmt) (sheets : List (List (Cell F.Num))) (i j : N
 /-! ### non-vacuity -/
 
 example : attrRead (attrWrite "R&D <1> \"q\" 'x'".toList) = "R&D <1> \"q\" 'x'".toList := by decide
+
+
+/-- **Tie to the source (T).**  Both halves of the attribute channel are the source's, as regenerated on this run:
+    `write_start_tag` ↦ `attrWrite`, the normalisation of `get_attribute_value` ↦ `attrNorm`. -/
+theorem C04_channels_match_source (s : List Char) :
+    Umya.Gen.write_start_tag_escape.run escapeOld partialEscapeOld s = attrWrite s ∧
+    Umya.Gen.applySteps Umya.Gen.get_attribute_value_normalise s = attrNorm s :=
+  ⟨Umya.Gen.gen_write_start_tag s, Umya.Gen.gen_get_attribute_value s⟩
 
 end Umya.Thm.C04
